@@ -6,6 +6,7 @@ import Driver.ProvCmd
 import Driver.HashCmd
 import Driver.CollectCmd
 import Driver.DryCmd
+import Driver.TopCmd
 /-! `driver`: one request per line on stdin, one answer per line on stdout. -/
 namespace Driver
 
@@ -22,6 +23,9 @@ def step (st : St) (line : String) : St × String :=
   if cmd.startsWith "sorter." || cmd.startsWith "graph." then
     let (s, out) := sorterHandle st.sorter cmd args
     ({ st with sorter := s }, out)
+  else if cmd == "engine.top" then
+    let (s, out) := topHandle st.engine args
+    ({ st with engine := s }, out)
   else if cmd.startsWith "engine." then
     let (s, out) := engineHandle st.engine cmd args
     ({ st with engine := s }, out)
